@@ -289,12 +289,16 @@ fn malformed_and_oversized(run: &Run, stub: &Arc<EvmStub>) {
         ("3 bytes, kind 200".into(), vec![0x91, 0xcc, 0xc8], "ignored"),
         ("not msgpack".into(), vec![0xff, 0xff, 0xff, 0xff], "ignored"),
     ];
-    let mut big = vec![0x91u8, 0x01, 0xc6];
-    big.extend_from_slice(&((max - 7) as u32).to_be_bytes());
-    big.resize(max, 0xaa);
-    inputs.push((format!("exactly max_value_bytes ({max})"), big.clone(), "too-large"));
-    big.push(0);
-    inputs.push((format!("max_value_bytes + 1"), big, "too-large"));
+    // oversized records under the header of every record kind (the size rule is about the record, not about its kind:
+    // a kind that is "always passed on" for its payment is still bounded), at the limit, just above, and at twice the limit
+    for kind in 0u8..8 {
+        for (sname, size) in [("exactly max_value_bytes", max), ("max_value_bytes + 1", max + 1), ("twice max_value_bytes", 2 * max)] {
+            let mut big = vec![0x91u8, kind, 0xc6];
+            big.extend_from_slice(&((size - 7) as u32).to_be_bytes());
+            big.resize(size, 0xaa);
+            inputs.push((format!("{sname} ({size}) under the header of kind {kind}"), big, "too-large"));
+        }
+    }
     for (name, bytes, expect) in inputs {
         let before = rig.listed();
         let record = Record { key: key.clone(), value: bytes, publisher: None, expires: None };
@@ -375,7 +379,7 @@ pub fn main(tier: Option<&str>) {
         "kind 4 x path {paid put, unpaid update, replication, kad inbound} x key {derived, another object of the same kind, an object of \
          another kind, random, the derived key minus its last byte / plus one byte, the empty key} x {empty store, derived key already held, the presented foreign key already held by its legitimate record, a store full (capacity 2) of two unrelated chunks farther away than every key of the case}: each on a fresh real Node + SwarmDriver under the FIFO \
          schedule, the presented key paid for by an otherwise valid proof; after each case every record the store lists is re-derived \
-         from its bytes. Plus 8 malformed / oversized inbound records. Non-trivial = the key is not the derived one.",
+         from its bytes. Plus 6 malformed inbound records and oversized ones (at the limit, one above, twice the limit) under the header of each of the 8 record kinds. Non-trivial = the key is not the derived one.",
     );
     run.assume("sequential check under the FIFO schedule; payment is valid for the key that is presented");
     let mut cases = vec![];
